@@ -37,6 +37,22 @@ func ZZ_C18_Hasher() {
 		p2 = x
 	}
 	zzC18Same(p1, p2, "pointer")
+	// a pointer key is its address: what it points to may change during the life of the cache
+	hp := hasher.NewHasher[*int](nil)
+	*x = int(vfI32("pointee1"))
+	hx1 := hp.Hash(p1)
+	*x = int(vfI32("pointee2"))
+	hx2 := hp.Hash(p1)
+	vfAssert("pointer:hash-independent-of-pointee", hx1 == hx2)
+	var np *int
+	_ = hp.Hash(np) // a nil pointer is a valid key
+	type zzBox struct{ p *int }
+	hb := hasher.NewHasher[zzBox](nil)
+	*x = 1
+	hb1 := hb.Hash(zzBox{x})
+	*x = 2
+	hb2 := hb.Hash(zzBox{x})
+	vfAssert("pointer-struct:hash-independent-of-pointee", hb1 == hb2)
 	zzC18Same("key-one", "key-one", "string")
 	vfReach("hashed")
 }
@@ -72,13 +88,14 @@ func ZZ_C18_Collision() {
 	h2, i2 := s.index(k2)
 	vfAssume(h1 == h2) // full 64-bit collision (the uninterpreted hash permits it)
 	vfAssert("index-is-function-of-hash", i1 == i2)
-	s.Set(k1, 111, 1, 0)
+	ok1 := s.Set(k1, 111, 1, 0) // with the doorkeeper the first sighting of a hash is refused
 	ok2 := s.Set(k2, 222, 1, 0)
 	v1, hit1 := s.Get(k1)
 	v2, hit2 := s.Get(k2)
 	vfReach("collided")
 	vfAssert("colliding-keys-keep-their-own-values", vfImplies(hit1, v1 == 111) && vfImplies(hit2, v2 == 222))
-	vfAssert("both-stored", hit1 && (hit2 || !ok2))
+	vfAssert("both-stored", (hit1 || !ok1) && (hit2 || !ok2))
+	vfAssert("refused-means-absent", (ok1 || !hit1) && (ok2 || !hit2))
 	s.Delete(k1)
 	_, hit1b := s.Get(k1)
 	v2b, hit2b := s.Get(k2)
